@@ -402,7 +402,15 @@ def wicks(expr, rules: Rules = None, simplify_kronecker_deltas: bool = False):
             result = _contract_operator_string(op_string)
             result = (Mul(*c_part) * result).expand()
             if simplify_kronecker_deltas:
-                result = evaluate_deltas(result)
+                # determine the target indices from the input: in the result
+                # a target index might occur on more than one delta
+                # (contraction with a general index)
+                n_objects = {}
+                for obj in expr.args:
+                    for s in obj.atoms(Index):
+                        n_objects[s] = n_objects.get(s, 0) + 1
+                target_idx = [s for s, n in n_objects.items() if n == 1]
+                result = evaluate_deltas(result, target_idx)
     else:  # neither add, Mul, NO or Operator -> maybe a number or a tensor
         return expr
 
